@@ -436,6 +436,15 @@ impl<S: AsyncWrite + Unpin + 'static> futures_util::AsyncWrite for AsyncWriteStr
             debug_assert!(self.write_future.is_none());
             ready!(self.as_mut().poll_close_impl())?;
         }
+        // Finish a flush that is still in flight before buffering more data. While the
+        // flush future waits in `stream.flush()`, the write buffer is already back in
+        // place, so the write below would succeed; but that future has passed its write
+        // phase and would never send the new bytes. A later `poll_flush` or `poll_close`
+        // would resume it, report success and (for close) shut the stream down with
+        // those bytes still buffered.
+        if self.write_future.is_some() {
+            ready!(self.as_mut().poll_flush_impl())?;
+        }
         loop {
             let this = self.as_mut().project();
             poll_future_would_block!(
